@@ -95,6 +95,7 @@ fn child(prog_file: &str, maxsteps: usize, maxlimbs: usize) {
                 state = s;
                 let (st, maxl) = project_state(&mut state);
                 emit(json!({"ev":"step","pc":pc,"next":next,"cur":state.current_stack(),"st":st,
+                            "last":state.get_latest_loc().map(|x| x as i64).unwrap_or(-1),
                             "out":text_cps(&out.to_string().unwrap_or_default()),"err":text_cps(&err.to_string().unwrap_or_default())}));
                 if maxl > maxlimbs {
                     emit(json!({"ev":"cut","why":"size"}));
